@@ -275,7 +275,10 @@ func publicationScenario(s *hx.Seq) {
 		return
 	}
 	ctx := context.Background()
-	ops := []string{"Update(body=b2)", "Update(body=b1)", "Update(media)", "Update(audience=x)", "Update(stale version)", "Ack(ACCEPTED)", "Ack(REJECTED)", "Ack(ACCEPTED,allow)", "Ack(stale version)", "Ack(old version)"}
+	ops := []string{"Update(body=b2)", "Update(body=b1)", "Update(media)", "Update(audience=x)", "Update(stale version)", "Ack(ACCEPTED)", "Ack(REJECTED)", "Ack(ACCEPTED,allow)", "Ack(stale version)", "Ack(old version)",
+		// the write the server's UpdatePublication makes, made through the model by a caller of its own, who lists the
+		// mask option first and the model's options (new version, new publish time, receipt reset) after it
+		"Update(body=b3, through the model, mask option first)"}
 	depth := 3
 	if s.Thorough {
 		depth = 4
@@ -327,6 +330,9 @@ func publicationScenario(s *hx.Seq) {
 					got, err = srv.UpdatePublication(ctx, &traits.UpdatePublicationRequest{Name: "n", Publication: &traits.Publication{Id: "p", MediaType: "text/x"}, UpdateMask: &fieldmaskpb.FieldMask{Paths: []string{"media_type"}}})
 				case "Update(audience=x)":
 					got, err = srv.UpdatePublication(ctx, &traits.UpdatePublicationRequest{Name: "n", Publication: &traits.Publication{Id: "p", Audience: &traits.Publication_Audience{Name: "x"}}, UpdateMask: &fieldmaskpb.FieldMask{Paths: []string{"audience.name"}}})
+				case "Update(body=b3, through the model, mask option first)":
+					got, err = m.UpdatePublication("p", &traits.Publication{Id: "p", Body: []byte("b3")}, resource.WithUpdatePaths("body"),
+						publicationpb.WithNewVersion(), publicationpb.WithNewPublishTime(), publicationpb.WithResetReceipt())
 				case "Update(stale version)":
 					got, err = srv.UpdatePublication(ctx, &traits.UpdatePublicationRequest{Name: "n", Version: "stale", Publication: &traits.Publication{Id: "p", Body: []byte("zz")}, UpdateMask: &fieldmaskpb.FieldMask{Paths: []string{"body"}}})
 				case "Ack(ACCEPTED)":
